@@ -35,7 +35,9 @@ AuxInit == [cmd     |-> EmptyFn,   \* proc |-> name of the command it is running
             baseB   |-> {},        \* blobs made unavailable by the environment
             pre     |-> EmptyFn,   \* proc |-> [packs, idx] when its current command began
             plen    |-> EmptyFn,   \* pack |-> (blob |-> stored length)
-            psize   |-> EmptyFn]   \* pack |-> file size
+            psize   |-> EmptyFn,   \* pack |-> file size
+            reader  |-> EmptyFn,   \* proc |-> TRUE while it runs a reading command (C14 order rule applies)
+            sawSnap |-> EmptyFn]   \* proc |-> it has listed / loaded snapshots in this command
 
 E == Trace[l]
 Is(names) == l <= Len(Trace) /\ E.ev \in names
@@ -132,8 +134,14 @@ TLockOp ==
 
 \* reads, failed operations and free-form marks do not change the storage
 TSilent ==
-  /\ Is({"Load", "List", "Stat", "Failed", "Mark", "Report", "DamageKey", "DamageConfig"}) /\ Consume
+  /\ Is({"Stat", "Failed", "Mark", "Report", "DamageKey", "DamageConfig"}) /\ Consume
   /\ UNCHANGED storage /\ UNCHANGED aux
+
+\* reads: remember that the process has looked at the snapshots (C14 reader order)
+TRead ==
+  /\ Is({"Load", "List"}) /\ Consume
+  /\ UNCHANGED storage
+  /\ aux' = IF E.t = "snapshot" THEN [aux EXCEPT !.sawSnap = Put(@, E.proc, TRUE)] ELSE aux
 
 \* harness-made damage: a pack keeps its id but loses blobs; an index / snapshot file is replaced
 TDamagePack ==
@@ -159,7 +167,9 @@ TCmdBegin ==
   /\ aux' = [aux EXCEPT !.cmd = Put(@, E.proc, E.cmd), !.removed = Put(@, E.proc, {}),
                         !.saved = Put(@, E.proc, {}), !.muts = Put(@, E.proc, 0),
                         !.lockops = Put(@, E.proc, 0),
-                        !.pre = Put(@, E.proc, [packs |-> packs, idx |-> idx])]
+                        !.pre = Put(@, E.proc, [packs |-> packs, idx |-> idx]),
+                        !.reader = Put(@, E.proc, "reader" \in DOMAIN E /\ E.reader),
+                        !.sawSnap = Put(@, E.proc, FALSE)]
   /\ UNCHANGED storage
 
 TCmdEnd ==
@@ -171,7 +181,7 @@ TNext ==
   \/ TReset \/ TTree \/ TSavePack \/ TSaveIndex \/ TSaveSnap
   \/ TRemoveSnap \/ TRemoveIndex \/ TRemovePack
   \/ TSaveKey \/ TRemoveKey \/ TSaveConfig \/ TRemoveConfig
-  \/ TLockOp \/ TSilent \/ TDamagePack \/ TDamageIndex \/ TDamageSnap \/ TCmdBegin \/ TCmdEnd
+  \/ TLockOp \/ TSilent \/ TRead \/ TDamagePack \/ TDamageIndex \/ TDamageSnap \/ TCmdBegin \/ TCmdEnd
 
 TInit == StorageInit /\ l = 1 /\ aux = AuxInit /\ ev = NoEv
 
@@ -237,6 +247,12 @@ NoLeak     == (ev.ev \in SaveEvents) => ~ev.leak
 PackUnmixed == ev.ev = "SavePack" => ~ev.mixed
 \* files written by restic are readable by restic's own decoder
 Readable   == (ev.ev \in SaveEvents /\ "readable" \in DOMAIN ev) => ev.readable
+
+\* C14: a reading command lists (or loads) the snapshots before it lists or loads the index,
+\* so that every snapshot it can see was written before the index it is going to load
+ReaderOrder ==
+  (ev.ev \in {"Load", "List"} /\ ev.t = "index" /\ Get(aux.reader, ev.proc, FALSE))
+     => Get(aux.sawSnap, ev.proc, FALSE)
 
 IsEnd == ev.ev = "Cmd" /\ ev.phase = "end"
 
